@@ -1,4 +1,183 @@
-/- Rbgp.Wire.UpdateProps — C05 statements (being filled in). -/
-import Rbgp.Wire.UpdateSpec
+/-
+  Rbgp.Wire.UpdateProps — C05 (packet half), the readable statements.
+
+  Everything here is about the MODEL of packet/src/bgp.rs: the UPDATE arm of `parse_message`
+  (`Rbgp.Wire.Model`, shared with C03) and `validate_message` / `validate_update` (`Rbgp.Wire.Update`),
+  for every byte string, codec, profile and peer kind.
+
+  What is proved: (1) whatever UPDATE the parser returns, `validate_update` turns it into a `Message` list that
+  the parsed-level reference checker `USpec.checkV` (written from the property text over the recorded attribute
+  errors) accepts; (2) the pieces that statement rests on, as separate readable theorems; (3) finite
+  classification tables over all attribute type codes and all flag octets; (4) a session reset can only come from
+  the section lengths, a repeated MP attribute or the NLRI.
+  What is NOT proved: that the byte-level checker `USpec.check` (valid UPDATE + corruption list ↦ expected
+  outcome) accepts the model on every rendered case — that is `check_run_ok_full` below, a statement only; it is
+  evaluated as the oracle on the real code (and thereby, by the correspondence diff, on the model) for every
+  generated case.  The end-to-end half (RIB contents after `rx_msg`) is out of scope of this version.
+-/
+import Rbgp.Wire.UpdateProofs
 namespace Rbgp.Wire.UProps
+open Rbgp.Wire Rbgp.Wire.USpec
+
+/-! ## 0. The reference checker accepts every UPDATE the model lets through -/
+
+/-- packet-half master theorem -/
+theorem update_validated_ok (dec : HypDec) (p : Profile) (c : Codec) (src : Bytes) (ebgp : Bool) (n : Nat)
+    (r mr : Option Reach) (u mu : Option Unreach) (attrs : List Attr) (errs : List (Nat × Nat))
+    (hb : ∀ x ∈ src, x < 256)
+    (h : tryParse dec p c src = .msg n (.update r mr u mu attrs errs)) :
+    checkV ebgp r mr u mu attrs errs (validateMessage ebgp (.update r mr u mu attrs errs)) = .ok :=
+  Rbgp.Wire.update_validated_ok ebgp hb h
+
+/-- the same for `validate_update` alone, for ANY parse result with the two parser invariants -/
+theorem validate_check_ok (ebgp : Bool) (reach mpReach : Option Reach) (unreach mpUnreach : Option Unreach)
+    (attrs : List Attr) (errs : List (Nat × Nat))
+    (hb : ∀ e ∈ errs, e.2 < 256)
+    (hd : ∀ e ∈ errs, errMustTaw e = false → ∀ a ∈ attrs, a.code ≠ e.1) :
+    checkV ebgp reach mpReach unreach mpUnreach attrs errs
+      (validateUpdate ebgp reach mpReach unreach mpUnreach attrs errs) = .ok :=
+  Rbgp.Wire.validate_check_ok ebgp reach mpReach unreach mpUnreach attrs errs hb hd
+
+/-- the full-strength byte-level statement (NOT proved; checked as the oracle on every generated case) -/
+def check_run_ok_full : Prop :=
+  ∀ (dec : HypDec), dec.NP → ∀ (p : Profile) (c : Codec) (ebgp : Bool) (u : CUpdate) (cs : List Corr),
+    USpec.check c ebgp u cs (runUpdate dec p c ebgp (render c u cs)) = .ok
+
+/-! ## 1. treat-as-withdraw: no route announced, every announced prefix withdrawn -/
+
+theorem taw_no_reach (ebgp : Bool) (reach mpReach : Option Reach) (unreach mpUnreach : Option Unreach)
+    (attrs : List Attr) (errs : List (Nat × Nat))
+    (h : missingMandatory reach mpReach attrs = true ∨ ∃ e ∈ errs, errIsTaw e = true) :
+    reachMsgs (validateUpdate ebgp reach mpReach unreach mpUnreach attrs errs) = [] ∧
+    ∀ r ∈ optList reach ++ optList mpReach,
+      VMsg.unreach r.fam r.entries ∈ validateUpdate ebgp reach mpReach unreach mpUnreach attrs errs := by
+  apply validate_taw_no_reach
+  unfold tawDecision
+  rcases h with h | ⟨e, he, ht⟩
+  · simp [h]
+  · simp only [Bool.or_eq_true, List.any_eq_true]
+    exact Or.inr ⟨e, he, ht⟩
+
+/-- ... and treat-as-withdraw is chosen whenever the property requires it (type-based class of the error) -/
+theorem must_taw_is_taw (code flags : Nat) (hf : flags < 256) (h : errMustTaw (code, flags) = true) :
+    errIsTaw (code, flags) = true :=
+  must_taw_table code flags hf h
+
+/-! ## 2. withdrawals in the same message still take effect -/
+
+theorem withdrawals_preserved (ebgp : Bool) (reach mpReach : Option Reach) (unreach mpUnreach : Option Unreach)
+    (attrs : List Attr) (errs : List (Nat × Nat)) :
+    ∀ u ∈ optList unreach ++ optList mpUnreach,
+      VMsg.unreach u.fam u.entries ∈ validateUpdate ebgp reach mpReach unreach mpUnreach attrs errs :=
+  validate_withdrawals ebgp reach mpReach unreach mpUnreach attrs errs
+
+/-! ## 3. attribute discard: a reported attribute is never attached to an announced route -/
+
+/-- the attribute loop keeps an attribute or reports it, never both (per type code) -/
+theorem discard_removes_attr (two : Bool) (buf : Bytes) (hb : ∀ x ∈ buf, x < 256) (attrEnd fuel pos : Nat)
+    (s : AState) (h : attrLoop two buf attrEnd fuel { pos := pos } = .ok s) :
+    ∀ a ∈ s.attrs, ∀ e ∈ s.errs, a.code ≠ e.1 :=
+  (attrLoop_inv two buf hb attrEnd fuel _ (LoopInv.init pos) s h).disjoint
+
+/-- ... and this survives AS4 reconciliation and the error records added after the loop -/
+theorem discard_removes_attr_parsed (dec : HypDec) (p : Profile) (c : Codec) (buf : Bytes) (hdrErr : Notif)
+    (hb : ∀ x ∈ buf, x < 256)
+    (r mr : Option Reach) (u mu : Option Unreach) (attrs : List Attr) (errs : List (Nat × Nat))
+    (h : parseUpdate dec p c buf hdrErr = .ok (.update r mr u mu attrs errs)) :
+    ∀ e ∈ errs, errMustTaw e = false → ∀ a ∈ attrs, a.code ≠ e.1 :=
+  (parse_update_invariants hb h).2
+
+/-- every announced route carries the parsed attributes minus the iBGP-only ones for an external peer -/
+theorem reach_attrs (ebgp : Bool) (reach mpReach : Option Reach) (unreach mpUnreach : Option Unreach)
+    (attrs : List Attr) (errs : List (Nat × Nat)) :
+    ∀ as ∈ reachMsgs (validateUpdate ebgp reach mpReach unreach mpUnreach attrs errs), as = keptAttrs ebgp attrs :=
+  validate_reach_attrs
+
+/-! ## 4. iBGP-only attributes from an external peer are dropped -/
+
+theorem ebgp_filters_ibgp_attrs (reach mpReach : Option Reach) (unreach mpUnreach : Option Unreach)
+    (attrs : List Attr) (errs : List (Nat × Nat)) :
+    ∀ as ∈ reachMsgs (validateUpdate true reach mpReach unreach mpUnreach attrs errs),
+      ∀ a ∈ as, a.code ≠ 5 ∧ a.code ≠ 9 ∧ a.code ≠ 10 :=
+  validate_ebgp_filter
+
+/-! ## 5. classification tables: every attribute type code × every flag octet -/
+
+/-- the decoder's canonical flags are the property's attribute classes -/
+theorem classification_table_types (code : Nat) : (canonicalFlags code).map flagBits = attrClass code :=
+  canonical_table code
+
+/-- wrong Optional/Transitive bits are detected exactly when they differ from the type's class -/
+theorem classification_table_flags (code flags : Nat) (hf : flags < 256) :
+    (match canonicalFlags code with
+     | some c => flagsConflict flags c
+     | none => false) =
+    (match attrClass code with
+     | some cls => flagBits flags != cls
+     | none => false) :=
+  flags_conflict_table code flags hf
+
+/-- and every error the property classifies as treat-as-withdraw is classified so (all codes, all flag octets) -/
+theorem classification_table (code flags : Nat) (hf : flags < 256) :
+    errMustTaw (code, flags) = true → errIsTaw (code, flags) = true :=
+  must_taw_table code flags hf
+
+/-! ## 6. a session reset only when the NLRI cannot be located or parsed -/
+
+theorem reset_only_if_nlri_unlocatable (dec : HypDec) (p : Profile) (c : Codec) (buf : Bytes) (hdrErr e : Notif)
+    (h : parseUpdate dec p c buf hdrErr = .err e) :
+    buf.length < 23 ∨ updateLens buf = .err e ∨
+    ∃ wl al, updateLens buf = .ok (wl, al) ∧
+      (attrLoop c.two buf (23 + wl + al) (buf.length + 1) { pos := 23 + wl } = .err e ∨
+       ∃ s, attrLoop c.two buf (23 + wl + al) (buf.length + 1) { pos := 23 + wl } = .ok s ∧
+         (legacyReach dec c buf (23 + wl + al) = .err e ∨ legacyUnreach dec c buf wl = .err e ∨
+          mpReachOf dec c s.mpReach = .err e ∨ mpUnreachOf dec c s.mpUnreach = .err e)) :=
+  update_reset_causes h
+
+/-- inside the attribute loop only a second MP_REACH_NLRI / MP_UNREACH_NLRI resets -/
+theorem attr_loop_reset_only_duplicate_mp (two : Bool) (buf : Bytes) (attrEnd : Nat) (hEnd : attrEnd ≤ buf.length)
+    (e : Notif) (fuel : Nat) (s : AState) (h : attrLoop two buf attrEnd fuel s = .err e) :
+    ∃ s' flags code alen pos, attrBody two buf s' flags code alen pos = .err e ∧ (code = 14 ∨ code = 15) ∧
+      s'.seen.contains code = true :=
+  attrLoop_err hEnd fuel s h
+
+/-! ## 7. Non-vacuity and witnesses -/
+
+def codecV4 : Codec := ⟨false, false, [(65537, false)]⟩
+
+/-- ORIGIN, empty AS_PATH, NEXT_HOP 10.0.0.1, COMMUNITIES, NLRI 10/8 -/
+def uOk : CUpdate :=
+  { wd := [], attrs := [⟨0x40, 1, [0]⟩, ⟨0x40, 2, []⟩, ⟨0x40, 3, [10, 0, 0, 1]⟩, ⟨0xc0, 8, [255, 255, 255, 1]⟩],
+    mpr := none, mpu := none, nlri := [⟨0, 8, [10]⟩] }
+
+/-- uncorrupted: announced with all attributes -/
+example : runUpdate noHypDec .debug codecV4 false (render codecV4 uOk []) =
+    .ok [.reach 65537 (some [10, 0, 0, 1]) [⟨0, 8, [10, 0, 0, 0]⟩]
+          [⟨1, 0x40, .val 0⟩, ⟨2, 0x40, .bin []⟩, ⟨8, 0xc0, .bin [255, 255, 255, 1]⟩]] := by decide
+
+/-- COMMUNITIES sent with flags "optional non-transitive": treat-as-withdraw (was: attribute discard) -/
+example : runUpdate noHypDec .debug codecV4 false (render codecV4 uOk [.flags 3 0x80]) =
+    .ok [.unreach 65537 [⟨0, 8, [10, 0, 0, 0]⟩]] := by decide
+example : errIsTawOld (8, 0x80) = false ∧ errMustTaw (8, 0x80) = true ∧ errIsTaw (8, 0x80) = true := by decide
+
+/-- NEXT_HOP of 16 bytes: treat-as-withdraw (was: believed as an IPv6 next hop) -/
+example : runUpdate noHypDec .release codecV4 true
+    (render codecV4 uOk [.data 2 [10, 0, 0, 1, 4, 5, 6, 7, 8, 9, 10, 11, 12, 13, 14, 15]]) =
+    .ok [.unreach 65537 [⟨0, 8, [10, 0, 0, 0]⟩]] := by decide
+
+/-- the byte-level checker accepts these runs and rejects the pre-repair outcome -/
+example : USpec.check codecV4 false uOk [.flags 3 0x80]
+    (runUpdate noHypDec .debug codecV4 false (render codecV4 uOk [.flags 3 0x80])) = .ok := by decide
+example : USpec.check codecV4 false uOk [.flags 3 0x80]
+    (.ok [.reach 65537 (some [10, 0, 0, 1]) [⟨0, 8, [10, 0, 0, 0]⟩] [⟨1, 0x40, .val 0⟩, ⟨2, 0x40, .bin []⟩]]) =
+    .fail "route-announced-although-an-attribute-error-requires-treat-as-withdraw" := by decide
+
+/-- the hypotheses of `update_validated_ok` are satisfiable by a message with a recorded (discard-class) error:
+    MED of 3 bytes -/
+def uMed : CUpdate := { uOk with attrs := uOk.attrs ++ [⟨0x80, 4, [0, 0, 0, 5]⟩] }
+example : ∃ n r mr u mu attrs errs,
+    tryParse noHypDec .debug codecV4 (render codecV4 uMed [.data 4 [0, 0, 5]]) = .msg n (.update r mr u mu attrs errs)
+      ∧ errs = [(4, 0x80)] ∧ ¬ (attrs.any (·.code == 4)) := by
+  refine ⟨_, _, _, _, _, _, _, by decide, by decide, by decide⟩
+
 end Rbgp.Wire.UProps
